@@ -16,6 +16,8 @@ def feature_line(n):
     seqid = "c2" if n % 3 == 0 else "c1"
     attrs = "ID=f%d" % n if n % 2 == 0 else "ID=f%d;N=x" % n
     tail = "\t" if n % 4 == 1 else ""        # an empty tenth column: the line ends with a tab
+    if n % 5 == 3:
+        attrs, tail = "", ""                  # a feature with an EMPTY attributes column (no weight in the dialect vote, no ID)
     return "%s\ts\t%s\t%d\t%d\t.\t+\t.\t%s%s" % (seqid, ftype, n, n + 5, attrs, tail)
 
 
@@ -44,10 +46,8 @@ def render(kinds):
 
 
 def fid(f):
-    """position of a feature in its file, from its ID attribute f<n>"""
-    v = f.attributes["ID"]
-    v = v[0] if isinstance(v, list) else v
-    return int(v[1:])
+    """position of a feature in its file: its start coordinate (feature_line(n) starts at n; every third-of-five line has no attributes at all)"""
+    return int(f.start)
 
 
 def get_cases(ctx, maxitems, label):
